@@ -299,12 +299,13 @@ def exprDoc : GExpr → Doc
   | .slit ty (f :: fs) =>
       toksDoc (typeNameToks ty) ++ sym "{" ++
         nestD Gen.GoPrintTables.nestAmount (.hardline ++ intersperse .hardline (fieldDocs (f :: fs)) ++ .hardline) ++ sym "}"
-  | .alit ty elems =>
-      (match ty with
-       | .array len e => sym "[" ++ tokD (.num (toString len)) ++ sym "]" ++ typeDoc e
-       | .slice e => sym "[" ++ sym "]" ++ typeDoc e
-       | _ => panicTok) ++
+  | .alit (.array len e) elems =>
+      sym "[" ++ tokD (.num (toString len)) ++ sym "]" ++ typeDoc e ++
         sym "{" ++ intersperse (sym "," ++ .sp) (exprDocs elems) ++ sym "}"
+  | .alit (.slice e) elems =>
+      sym "[" ++ sym "]" ++ typeDoc e ++ sym "{" ++ intersperse (sym "," ++ .sp) (exprDocs elems) ++ sym "}"
+  | .alit _ elems =>      -- the Rust panics here ("Array literal must have array or slice type")
+      panicTok ++ sym "{" ++ intersperse (sym "," ++ .sp) (exprDocs elems) ++ sym "}"
   -- `Expr::Block` (never produced for a value position by the back end; not a Go expression):
   -- `{` nest(hardline, stmts joined by hardline, hardline if an expression follows, the expression, hardline) `}`
   | .blocke _ [] none => sym "{" ++ sym "}"
@@ -472,6 +473,11 @@ def isNumLit : GExpr → Bool
   | .int _ _ | .float _ _ => true
   | _ => false
 
+/-- the type of an `ArrayLiteral` the printer accepts (it panics on any other) -/
+def isArrTy : GTy → Bool
+  | .array _ _ | .slice _ => true
+  | _ => false
+
 mutual
 /-- the expression's printed text, read by Go's precedence rules, is the expression: every operand binds at
     least as tightly as its position requires (left operand ≥ the operator's level — Go's binary operators
@@ -488,7 +494,7 @@ def exprParenFree : GExpr → Bool
   | .index _ arr idx => decide (7 ≤ level arr) && exprParenFree arr && exprParenFree idx
   | .cast _ e => decide (7 ≤ level e) && !isNumLit e && exprParenFree e
   | .slit _ fields => fieldsParenFree fields
-  | .alit ty elems => (match ty with | .array _ _ | .slice _ => true | _ => false) && exprsParenFree elems
+  | .alit ty elems => isArrTy ty && exprsParenFree elems
   | _ => true
 def exprsParenFree : List GExpr → Bool
   | [] => true
